@@ -301,6 +301,9 @@ pub fn run(ctx: &Ctx, st: &mut Stats) -> Vec<Violation> {
         out.extend(pairwise_interference(ctx, st));
     }
     if out.is_empty() {
+        out.extend(triple_interference(ctx, st));
+    }
+    if out.is_empty() {
         out.extend(size_axis(ctx, st));
     }
     if out.is_empty() {
@@ -429,6 +432,71 @@ fn pairwise_interference(ctx: &Ctx, st: &mut Stats) -> Vec<Violation> {
     out
 }
 
+/// The same over the complete metadata: every ordered pair of fully specified (matrix, primaries, transfer) triples
+/// (3276^2 = 10.7 M pairs), YUV->RGB and RGB->YUV, the second conversion right after the first on one thread against
+/// its result in isolation. (Keys that pack the three fields with too small a radix collide between triples that
+/// differ in two fields at once.)
+fn triple_interference(ctx: &Ctx, st: &mut Stats) -> Vec<Violation> {
+    let mut cfgs: Vec<(MC, CP, TC)> = Vec::new();
+    for m in ALL_MC {
+        for p in ALL_CP {
+            for t in ALL_TC {
+                if m != MC::Unspecified && p != CP::Unspecified && t != TC::Unspecified {
+                    cfgs.push((m, p, t));
+                }
+            }
+        }
+    }
+    let sh = Shape { ss: (0, 0), full: false, img: 0 };
+    // results in isolation, computed on fresh threads (one thread per matrix: its configs one after the other would
+    // not be "in isolation", so each config gets its own)
+    let iso: Vec<[Out; 2]> = cfgs
+        .chunks(64)
+        .flat_map(|ch| {
+            let hs: Vec<_> = ch.iter().map(|&(m, p, t)| std::thread::spawn(move || [run_conv(0, m, p, t, sh), run_conv(1, m, p, t, sh)])).collect();
+            hs.into_iter().map(|h| h.join().unwrap_or([Err(CE::UnsupportedMatrixCoefficients), Err(CE::UnsupportedMatrixCoefficients)])).collect::<Vec<_>>()
+        })
+        .collect();
+    let n = cfgs.len() as u64;
+    let out = par_sweep(ctx, st, n, |lo, hi, st| {
+        for a in lo..hi {
+            let (ma, pa, ta) = cfgs[a as usize];
+            for (b, &(mb, pb, tb)) in cfgs.iter().enumerate() {
+                for conv in 0..2usize {
+                    let r = catch(|| {
+                        let _ = run_conv(conv, ma, pa, ta, sh);
+                        run_conv(conv, mb, pb, tb, sh)
+                    });
+                    let same = match (&r, &iso[b][conv]) {
+                        (Ok(Ok(x)), Ok(y)) => x == y,
+                        (Ok(Err(x)), Err(y)) => x == y,
+                        _ => false,
+                    };
+                    if !same {
+                        return Some(Violation {
+                            signature: format!("C14:interference3:{}", CONV_NAMES[conv]),
+                            message: format!(
+                                "{} with {} gives {:?} right after the same conversion with {} on the same thread, but {:?} in isolation",
+                                CONV_NAMES[conv], names(mb, pb, tb), r.as_ref().map(|x| x.as_ref().map(|v| v[..v.len().min(4)].to_vec())), names(ma, pa, ta), iso[b][conv].as_ref().map(|v| v[..v.len().min(4)].to_vec())
+                            ),
+                            case: json!({"prop":"C14","part":"pair","first":names(ma, pa, ta),"second":names(mb, pb, tb),"conv":conv}),
+                        });
+                    }
+                }
+            }
+            st.evaluations += 1;
+            st.comparisons += 2 * n;
+            st.nontrivial_by_construction += 1;
+            st.class("interference3_rows", 1);
+        }
+        None
+    });
+    if out.is_empty() {
+        st.exhaustive_parts.push("all 3276^2 = 10,732,176 ordered pairs of fully specified (matrix, primaries, transfer) triples x YUV->RGB and RGB->YUV: second conversion right after the first vs in isolation".into());
+    }
+    out
+}
+
 /// The gamma<->linear and RGB<->XYB error contract on real-size images (error paths of size-gated code)
 fn size_axis(ctx: &Ctx, st: &mut Stats) -> Vec<Violation> {
     let sizes: Vec<(usize, usize)> = if ctx.quick() { vec![(257, 255), (2049, 2049), (3840, 2160)] } else { vec![(257, 255), (2049, 2049), (3840, 2160), (3841, 2161), (4097, 4097)] };
@@ -485,6 +553,7 @@ pub fn replay(v: &Value) -> Result<(), String> {
         let ctx = Ctx { id: "C14".into(), tier: Tier::Quick, seed: 0, threads: 8, known_open: vec![], build: "fast".into(), light: false };
         let mut st = Stats::new();
         let mut v2 = pairwise_interference(&ctx, &mut st);
+        v2.extend(triple_interference(&ctx, &mut st));
         v2.extend(size_axis(&ctx, &mut st));
         v2.extend(yuv_size_axis(&ctx, &mut st));
         return match v2.into_iter().next() {
@@ -501,4 +570,4 @@ pub fn replay(v: &Value) -> Result<(), String> {
     check_triple(c.matrix_coefficients, c.color_primaries, c.transfer_characteristics, Shape { ss, full, img }, &mut Stats::new()).map_err(|v| v.message)
 }
 
-pub const RULE: &str = "complete enumeration (both tiers): every fully specified (MatrixCoefficients, ColorPrimaries, TransferCharacteristic) triple (14 x 13 x 18 = 3276) x 12 conversions on a 4x4 image, repeated for 14 shapes: subsampling 4:4:4, 4:2:0, 4:2:2, 4:1:0 (2,2), 4:4:0 x limited/full x image content {colourful in-gamut, achromatic (grey pixels / neutral chroma), out-of-gamut floats / extreme codes} (YUV<->RGB in u8 and u16 storage, gamma<->linear, YUV<->linear, YUV<->XYB, RGB<->XYB). Oracle: no panic; the 7 x 11 x 14 supported triples succeed everywhere; an error is an Unsupported* variant naming a field the conversion uses and that is responsible (counterfactual: replacing only that field by BT.709/BT.1886 removes that error); forward Ok iff reverse Ok; YUV<->RGB and gamma<->linear pairs fail with the same error; with a standard matrix YUV<->RGB output is bit-identical for all transfer/primaries values. The triples of each shape are visited in one of four orders (transfer, primaries or matrix varying fastest, shuffled). In addition: all 33,124 ordered pairs of (matrix, primaries) configurations as two-step histories (the second conversion right after the first vs in isolation on a fresh thread), the gamma<->linear / RGB<->XYB contract on real-size images (up to 3840x2160; thorough 3841x2161 and 4097x4097), and the YUV<->RGB outcome of every (matrix, primaries) pair on real-size frames (256x256 and 1024x72 unpadded, 321x207 padded; thorough also 1920x1080 and 3840x2160; u8 and u16 storage) compared with its outcome on a 4x4 frame. A case = one (triple, shape) (all 12 conversions and their counterfactuals); non-trivial = triple outside the all-supported set; distinct by construction";
+pub const RULE: &str = "complete enumeration (both tiers): every fully specified (MatrixCoefficients, ColorPrimaries, TransferCharacteristic) triple (14 x 13 x 18 = 3276) x 12 conversions on a 4x4 image, repeated for 14 shapes: subsampling 4:4:4, 4:2:0, 4:2:2, 4:1:0 (2,2), 4:4:0 x limited/full x image content {colourful in-gamut, achromatic (grey pixels / neutral chroma), out-of-gamut floats / extreme codes} (YUV<->RGB in u8 and u16 storage, gamma<->linear, YUV<->linear, YUV<->XYB, RGB<->XYB). Oracle: no panic; the 7 x 11 x 14 supported triples succeed everywhere; an error is an Unsupported* variant naming a field the conversion uses and that is responsible (counterfactual: replacing only that field by BT.709/BT.1886 removes that error); forward Ok iff reverse Ok; YUV<->RGB and gamma<->linear pairs fail with the same error; with a standard matrix YUV<->RGB output is bit-identical for all transfer/primaries values. The triples of each shape are visited in one of four orders (transfer, primaries or matrix varying fastest, shuffled). In addition: all 33,124 ordered pairs of (matrix, primaries) configurations and all 10,732,176 ordered pairs of full (matrix, primaries, transfer) triples as two-step histories (the second conversion right after the first vs in isolation on a fresh thread), the gamma<->linear / RGB<->XYB contract on real-size images (up to 3840x2160; thorough 3841x2161 and 4097x4097), and the YUV<->RGB outcome of every (matrix, primaries) pair on real-size frames (256x256 and 1024x72 unpadded, 321x207 padded; thorough also 1920x1080 and 3840x2160; u8 and u16 storage) compared with its outcome on a 4x4 frame. A case = one (triple, shape) (all 12 conversions and their counterfactuals); non-trivial = triple outside the all-supported set; distinct by construction";
